@@ -35,6 +35,11 @@ type Site struct {
 	Family  string `json:"family"`
 }
 
+type joinEdit struct {
+	call *ast.CallExpr
+	id   string
+}
+
 type edit struct {
 	off  int
 	text string
@@ -199,6 +204,7 @@ func rewriteFile(p *packages.Package, f *ast.File, fname, rel, root string) ([]S
 	fset := p.Fset
 	tf := fset.File(f.Pos())
 	var edits []edit
+	var joins []joinEdit
 	var sites []Site
 	var warnings []string
 	counters := map[string]int{}
@@ -229,7 +235,17 @@ func rewriteFile(p *packages.Package, f *ast.File, fname, rel, root string) ([]S
 					return false
 				}
 			case *ast.GoStmt:
-				warnings = append(warnings, fmt.Sprintf("%s:%d: go statement (scheduling not owned by ordersim)", relFile, fset.Position(x.Pos()).Line))
+				// go f(x) -> verifsim.Go("site", func() { f(x) }): queued, run by the next Join in a seeded order
+				id := mkSite("go", fd, x.Pos(), "")
+				edits = append(edits, edit{off: tf.Offset(x.Pos()), text: fmt.Sprintf("verifsim.Go(%q, func() { /*go*/", id), seq: seq})
+				seq++
+				// skip the "go" keyword itself by commenting it out: "go" is 2 bytes at x.Pos()
+				edits = append(edits, edit{off: tf.Offset(x.Pos()), text: "/*", seq: seq})
+				seq++
+				edits = append(edits, edit{off: tf.Offset(x.Pos()) + 2, text: "*/", seq: seq})
+				seq++
+				add(x.End(), " })")
+				warnings = append(warnings, fmt.Sprintf("%s:%d: go statement: serialised by the simulator (queued until the next Wait)", relFile, fset.Position(x.Pos()).Line))
 			case *ast.SelectStmt:
 				warnings = append(warnings, fmt.Sprintf("%s:%d: select statement", relFile, fset.Position(x.Pos()).Line))
 			case *ast.RangeStmt:
@@ -278,6 +294,12 @@ func rewriteFile(p *packages.Package, f *ast.File, fname, rel, root string) ([]S
 							case "MapKeys", "MapRange":
 								die("%s:%d: reflect.%s has an unordered result and no rewrite rule", relFile, fset.Position(x.Pos()).Line, fnObj.Name())
 							}
+						}
+						if fnObj, ok := s.Obj().(*types.Func); ok && fnObj.Pkg() != nil && fnObj.Name() == "Wait" &&
+							(fnObj.Pkg().Path() == "sync" || fnObj.Pkg().Path() == "golang.org/x/sync/errgroup") {
+							// run everything queued by verifsim.Go before waiting for it
+							id := mkSite("join", fd, x.Pos(), "")
+							joins = append(joins, joinEdit{call: x, id: id})
 						}
 						if fnObj, ok := s.Obj().(*types.Func); ok && fnObj.Pkg() != nil && fnObj.Pkg().Path() == "sync" && fnObj.Name() == "Range" {
 							die("%s:%d: sync.Map.Range has no rewrite rule", relFile, fset.Position(x.Pos()).Line)
@@ -335,6 +357,17 @@ func rewriteFile(p *packages.Package, f *ast.File, fname, rel, root string) ([]S
 		})
 	}
 	visit(f, nil)
+	for _, jn := range joins {
+		// wg.Wait()  ->  verifsim.JoinDo("site", func() { wg.Wait() })     (statement context)
+		// err := g.Wait() keeps working through the generic JoinVal: verifsim.JoinVal("site", g.Wait)
+		sel := jn.call.Fun.(*ast.SelectorExpr)
+		add(jn.call.Pos(), fmt.Sprintf("verifsim.JoinVal(%q, ", jn.id))
+		// replace the trailing "()" of the call by ")" : comment out "(" .. ")"
+		edits = append(edits, edit{off: tf.Offset(sel.End()), text: ") /*", seq: seq})
+		seq++
+		edits = append(edits, edit{off: tf.Offset(jn.call.End()), text: "*/", seq: seq})
+		seq++
+	}
 
 	if len(edits) == 0 {
 		return nil, warnings
